@@ -8,6 +8,7 @@
 //!   replay truncate [--seed s]                          bounded stand-in of C07: every byte prefix of written snapshots is rejected
 mod agentrun;
 mod envrun;
+mod marketrun;
 mod model;
 use bourse_book::types::{Event, Order, Side, Status, Trade};
 use bourse_book::OrderBook;
@@ -121,11 +122,17 @@ struct Runner<const N: usize> {
     trades_since_reset: u64,
     fails: Vec<Failure>,
     stop_at_first: bool,
+    /// model-free mode: the reference engine is not driven and not compared (used to keep auditing the real book after it has left the reference engine:
+    /// the C02 / C03 / C04 / C12 / C13 audits recompute everything from the real book's own order and trade lists)
+    free: bool,
+    trading: bool,
+    ever_disabled: bool,
 }
 
 impl<const N: usize> Runner<N> {
     fn new(h: &History) -> Self {
-        Runner { book: OrderBook::new(h.t0, h.tick, h.trading), model: Model::new(h.t0, h.tick, h.trading), trades_since_reset: 0, fails: vec![], stop_at_first: true }
+        Runner { book: OrderBook::new(h.t0, h.tick, h.trading), model: Model::new(h.t0, h.tick, h.trading), trades_since_reset: 0, fails: vec![], stop_at_first: true,
+                 free: false, trading: h.trading, ever_disabled: !h.trading }
     }
 
     fn fail(&mut self, step: usize, op: &Op, clause: &str, detail: String) {
@@ -184,6 +191,13 @@ impl<const N: usize> Runner<N> {
                 bad.push(("C02.levels".into(), format!("ask level 0 = {:?} on an empty side", al[0])));
             }
         }
+        let (sb, cb): (u64, u64) = bl.iter().fold((0, 0), |acc, x| (acc.0 + x.0 as u64, acc.1 + x.1 as u64));
+        let (sa, ca): (u64, u64) = al.iter().fold((0, 0), |acc, x| (acc.0 + x.0 as u64, acc.1 + x.1 as u64));
+        let (nb, na) = (act(MSide::Bid).count() as u64, act(MSide::Ask).count() as u64);
+        if sb > bvol || sa > avol || cb > nb || ca > na {
+            bad.push(("C12.levels_account".into(), format!("published levels add up to more than rests on the side: bid {}/{} (orders {}/{}), ask {}/{} (orders {}/{})", sb, bvol, cb, nb, sa, avol, ca, na)));
+            bad.push(("C02.levels".into(), "published levels add up to more than rests on the side".into()));
+        }
         let l1 = b.level_1_data();
         if (l1.bid_price, l1.ask_price, l1.bid_vol, l1.ask_vol, l1.bid_touch_vol, l1.ask_touch_vol, l1.bid_touch_orders, l1.ask_touch_orders)
             != (b.bid_ask().0, b.bid_ask().1, b.bid_vol(), b.ask_vol(), b.bid_best_vol(), b.ask_best_vol(), b.bid_best_vol_and_orders().1, b.ask_best_vol_and_orders().1)
@@ -198,7 +212,7 @@ impl<const N: usize> Runner<N> {
         if b.mid_price() != mid {
             bad.push(("C02.mid_price".into(), format!("mid_price() = {}, recomputed {}", b.mid_price(), mid)));
         }
-        if !self.model.ever_disabled && has_bid && has_ask && bid >= ask {
+        if !self.ever_disabled && has_bid && has_ask && bid >= ask {
             bad.push(("C02.uncrossed".into(), format!("best bid {} >= best ask {} although trading was never disabled", bid, ask)));
         }
         // C12: every limit price on the grid
@@ -213,6 +227,9 @@ impl<const N: usize> Runner<N> {
     }
 
     fn check_reference(&mut self, step: usize, op: &Op) {
+        if self.free {
+            return;
+        }
         let ro: Vec<MOrder> = self.book.get_orders().iter().map(|o| morder(o)).collect();
         let rt: Vec<MTrade> = self.book.get_trades().iter().map(mtrade).collect();
         if ro.len() != self.model.orders.len() {
@@ -359,13 +376,16 @@ impl<const N: usize> Runner<N> {
 
     fn apply(&mut self, step: usize, op: &Op) {
         let before = snapshot(&self.book);
-        let trading_before = self.model.trading;
+        let trading_before = self.trading;
+        let free = self.free;
+        let tick = self.model.tick;
+        let st = |id: usize| before.orders[id].status;
         let mut modified = None;
         let mut noop_expected = false;
         match op {
             Op::Create { side, vol, trader, price } => {
                 let r = self.book.create_order(side_of(*side), *vol, *trader, *price);
-                let m = self.model.create(*side, *vol, *trader, *price);
+                let m = if free { if price.map_or(true, |p| p % tick == 0) { Ok(before.orders.len()) } else { Err(()) } } else { self.model.create(*side, *vol, *trader, *price).map_err(|_| ()) };
                 match (&r, &m) {
                     (Ok(a), Ok(b)) if a == b => {}
                     (Err(_), Err(_)) => noop_expected = true,
@@ -374,9 +394,9 @@ impl<const N: usize> Runner<N> {
             }
             Op::CreatePlace { side, vol, trader, price } => {
                 let r = self.book.create_and_place_order(side_of(*side), *vol, *trader, *price);
-                let m = self.model.create(*side, *vol, *trader, *price);
-                if let Ok(id) = m {
-                    self.model.place(id);
+                let m = if free { if price.map_or(true, |p| p % tick == 0) { Ok(before.orders.len()) } else { Err(()) } } else { self.model.create(*side, *vol, *trader, *price).map_err(|_| ()) };
+                if let (Ok(id), false) = (&m, free) {
+                    if !free { self.model.place(*id); }
                 }
                 match (&r, &m) {
                     (Ok(a), Ok(b)) if a == b => {}
@@ -385,36 +405,36 @@ impl<const N: usize> Runner<N> {
                 }
             }
             Op::Place { id } => {
-                noop_expected = self.model.orders[*id].status != MStatus::New;
+                noop_expected = st(*id) != MStatus::New;
                 self.book.place_order(*id);
-                self.model.place(*id);
+                if !free { self.model.place(*id); }
             }
             Op::EventNew { id } => {
-                noop_expected = self.model.orders[*id].status != MStatus::New;
+                noop_expected = st(*id) != MStatus::New;
                 self.book.process_event(Event::New { order_id: *id });
-                self.model.place(*id);
+                if !free { self.model.place(*id); }
             }
             Op::Cancel { id } => {
-                noop_expected = self.model.orders[*id].status != MStatus::Active;
+                noop_expected = st(*id) != MStatus::Active;
                 self.book.cancel_order(*id);
-                self.model.cancel(*id);
+                if !free { self.model.cancel(*id); }
             }
             Op::EventCancel { id } => {
-                noop_expected = self.model.orders[*id].status != MStatus::Active;
+                noop_expected = st(*id) != MStatus::Active;
                 self.book.process_event(Event::Cancellation { order_id: *id });
-                self.model.cancel(*id);
+                if !free { self.model.cancel(*id); }
             }
             Op::Modify { id, price, vol } => {
-                noop_expected = self.model.orders[*id].status != MStatus::Active || (price.is_none() && vol.is_none());
+                noop_expected = st(*id) != MStatus::Active || (price.is_none() && vol.is_none());
                 modified = Some(*id);
                 self.book.modify_order(*id, *price, *vol);
-                self.model.modify(*id, *price, *vol);
+                if !free { self.model.modify(*id, *price, *vol); }
             }
             Op::EventModify { id, price, vol } => {
-                noop_expected = self.model.orders[*id].status != MStatus::Active || (price.is_none() && vol.is_none());
+                noop_expected = st(*id) != MStatus::Active || (price.is_none() && vol.is_none());
                 modified = Some(*id);
                 self.book.process_event(Event::Modify { order_id: *id, new_price: *price, new_vol: *vol });
-                self.model.modify(*id, *price, *vol);
+                if !free { self.model.modify(*id, *price, *vol); }
             }
             Op::SetTime { t } => {
                 self.book.set_time(*t);
@@ -423,11 +443,14 @@ impl<const N: usize> Runner<N> {
             Op::Enable => {
                 self.book.enable_trading();
                 self.model.trading = true;
+                self.trading = true;
             }
             Op::Disable => {
                 self.book.disable_trading();
                 self.model.trading = false;
                 self.model.ever_disabled = true;
+                self.trading = false;
+                self.ever_disabled = true;
             }
             Op::ResetTradeVol => {
                 self.book.reset_trade_vol();
@@ -488,10 +511,17 @@ impl<const N: usize> Runner<N> {
 }
 
 fn run_levels<const N: usize>(h: &History) -> Vec<Failure> {
+    run_levels_mode::<N>(h, false)
+}
+
+/// `free`: model-free audits only, run to the end of the history (every failure is collected)
+fn run_levels_mode<const N: usize>(h: &History, free: bool) -> Vec<Failure> {
     let mut r = Runner::<N>::new(h);
+    r.free = free;
+    r.stop_at_first = !free;
     for (k, op) in h.ops.iter().enumerate() {
         // ids must exist: a history that names a missing order is invalid, not a failure
-        let max_id = r.model.orders.len();
+        let max_id = if free { r.book.get_orders().len() } else { r.model.orders.len() };
         let id = match op {
             Op::Place { id } | Op::Cancel { id } | Op::Modify { id, .. } | Op::EventNew { id } | Op::EventCancel { id } | Op::EventModify { id, .. } => Some(*id),
             _ => None,
@@ -512,6 +542,29 @@ fn run_levels<const N: usize>(h: &History) -> Vec<Failure> {
         }
     }
     r.fails
+}
+
+/// the model-free audits over the whole history (the real book keeps being audited after it has left the reference engine)
+pub fn run_history_free(h: &History) -> Vec<Failure> {
+    match h.levels {
+        1 => run_levels_mode::<1>(h, true),
+        2 => run_levels_mode::<2>(h, true),
+        3 => run_levels_mode::<3>(h, true),
+        5 => run_levels_mode::<5>(h, true),
+        24 => run_levels_mode::<24>(h, true),
+        _ => run_levels_mode::<10>(h, true),
+    }
+}
+
+/// failures of a history for a property: the lock-step run against the reference engine; when that run stops at a failure of ANOTHER property, the model-free
+/// audits of the rest of the history as well
+fn fails_for(h: &History, prop: &str) -> Vec<Failure> {
+    let f = run_history(h);
+    if f.is_empty() || f.iter().any(|x| matches_prop(x, prop)) {
+        return f;
+    }
+    let g = run_history_free(h);
+    if g.iter().any(|x| matches_prop(x, prop)) { g } else { f }
 }
 
 pub fn run_history(h: &History) -> Vec<Failure> {
@@ -546,6 +599,7 @@ impl Gen {
                 v.push(Op::CreatePlace { side, vol, trader: 2, price: None });
             }
             v.push(Op::Create { side, vol: 3, trader: 3, price: Some(prices[1]) });
+            v.push(Op::Create { side, vol: 4, trader: 3, price: None });
         }
         for id in 0..n_orders {
             v.push(Op::Cancel { id });
@@ -566,7 +620,8 @@ impl Gen {
         let mut ops = vec![];
         let mut t = 0u64;
         let mut n = 0usize;
-        let base = 20u32;
+        // one history in four lives next to price 0 (0 is a multiple of every tick size: a legal price)
+        let base = if self.rng.gen_range(0..4) == 0 { 0u32 } else { 20u32 };
         for _ in 0..len {
             if !self.ties || self.rng.gen_bool(0.4) {
                 t += self.rng.gen_range(1..3);
@@ -581,7 +636,7 @@ impl Gen {
                 Op::CreatePlace { side, vol, trader: self.rng.gen_range(0..3), price: if self.rng.gen_bool(0.8) { Some(price) } else { None } }
             } else if r < 45 {
                 n += 1;
-                Op::Create { side, vol, trader: 0, price: Some(price) }
+                Op::Create { side, vol, trader: 0, price: if self.rng.gen_bool(0.7) { Some(price) } else { None } }
             } else if r < 50 {
                 Op::Create { side, vol, trader: 0, price: Some(price + 1) }
             } else if r < 55 {
@@ -663,7 +718,7 @@ fn shrink(mut h: History, prop: &str) -> History {
             let mut h2 = h.clone();
             h2.ops.remove(i);
             h2.ops = fix_ids_keep(h2.ops);
-            if run_history(&h2).iter().any(|f| matches_prop(f, prop)) {
+            if fails_for(&h2, prop).iter().any(|f| matches_prop(f, prop)) {
                 h = h2;
                 changed = true;
             } else {
@@ -690,10 +745,10 @@ fn search(prop: &str, depth: usize, seed: u64, nrandom: usize, len: usize, ties:
                 break;
             }
             let h = History { tick, levels: 3, trading: true, t0: 0, ops: prefix.clone(), note: String::new() };
-            let fails = run_history(&h);
+            let fails = fails_for(&h, prop);
             if fails.iter().any(|f| matches_prop(f, prop)) {
                 let h = shrink(h, prop);
-                let fails = run_history(&h);
+                let fails = fails_for(&h, prop);
                 return Some((h, fails));
             }
             if prefix.len() >= depth {
@@ -746,10 +801,10 @@ fn search(prop: &str, depth: usize, seed: u64, nrandom: usize, len: usize, ties:
                 h.ops.insert(*at + k, if k % 2 == 0 { Op::Disable } else { Op::Enable });
             }
         }
-        let fails = run_history(&h);
+        let fails = fails_for(&h, prop);
         if fails.iter().any(|f| matches_prop(f, prop)) {
             let h = shrink(h, prop);
-            let fails = run_history(&h);
+            let fails = fails_for(&h, prop);
             return Some((h, fails));
         }
     }
@@ -915,6 +970,12 @@ fn main() {
                 println!("{}", serde_json::to_string_pretty(&serde_json::json!({"case": c, "failures": fails})).unwrap());
                 std::process::exit(if fails.is_empty() { 0 } else { 1 });
             }
+            if hv0.get("ticks").is_some() && hv0.get("env").is_none() && hv0.get("tick").is_none() {
+                let h: marketrun::MarketHistory = serde_json::from_value(hv0).expect("market history format");
+                let fails = marketrun::run_market_history(&h);
+                println!("{}", serde_json::to_string_pretty(&serde_json::json!({"ops": h.ops.len(), "failures": fails})).unwrap());
+                std::process::exit(if fails.is_empty() { 0 } else { 1 });
+            }
             if hv0.get("env").is_some() {
                 let h: envrun::EnvHistory = serde_json::from_value(hv0).expect("env history format");
                 let fails = envrun::run_env_history(&h);
@@ -936,6 +997,22 @@ fn main() {
             let budget: u64 = arg(&args, "--budget").map_or(60, |s| s.parse().unwrap());
             let ties = args.iter().any(|a| a == "--ties");
             let offgrid = args.iter().any(|a| a == "--offgrid");
+            if args.iter().any(|a| a == "--market") {
+                match marketrun::search_market(&prop, seed, nrandom, budget) {
+                    Some((h, fails)) => {
+                        let doc = serde_json::json!({"history": h, "failures": fails});
+                        if let Some(out) = arg(&args, "--out") {
+                            std::fs::write(out, serde_json::to_string_pretty(&doc).unwrap()).unwrap();
+                        }
+                        println!("{}", serde_json::to_string_pretty(&doc).unwrap());
+                        std::process::exit(1);
+                    }
+                    None => {
+                        println!("{{\"found\": false}}");
+                        return;
+                    }
+                }
+            }
             if args.iter().any(|a| a == "--env") {
                 match envrun::search_env(&prop, seed, nrandom, budget, args.iter().any(|a| a == "--overrun")) {
                     Some((h, fails)) => {
